@@ -30,7 +30,7 @@ RULE = ('a case = (static attributes with quoting kinds, statement entries, valu
         'statics and 4 entries incl. up to 2 dictionary entries; non-trivial iff a name is targeted by >=1 dynamic source or is '
         'boolean; distinct by (static quoting vector, overlap pattern, value classes, configuration). Not generated (statement '
         'silent or ambiguous): default for an attribute whose static text contains ${...}; a dictionary key equal to a name '
-        'that is both static and targeted by a named entry written AFTER the dictionary; dictionary keys differing only in case from another name; quote style of a dynamic value replacing an '
+        'that differs only in case from the spelling of a named entry (see below); dictionary keys differing only in case from another name; quote style of a dynamic value replacing an '
         'unquoted or valueless static (compared quote-agnostically).')
 ASSUMPTIONS = ['a dictionary-supplied value for a static name may appear at the static or at the dictionary position '
                '(position of dictionary-overridden names is compared as unordered)']
@@ -73,7 +73,7 @@ def esc(v, q):
     return exprs.escape_attr(exprs.to_text(v), q) if q in ('"', "'") else exprs.escape_text(exprs.to_text(v))
 
 
-def model(statics, entries, cfg, B):
+def model(statics, entries, cfg, B, dictionary_always_after_statics=False):
     """Returns a list of items: (name, kind, payload) where kind in
     'static' (payload = raw source text of the attribute), 'value' (payload = (expected escaped text, quote)),
     'loose' (payload = unescaped value; quote style unspecified), 'bare' (valueless)."""
@@ -81,20 +81,30 @@ def model(statics, entries, cfg, B):
     merged = []
     for n, kind in statics:
         merged.append({'name': n, 'kind': kind, 'text': static_text(n, kind), 'dyn': None, 'static': True})
-    for n, var in entries:
+    for ei, (n, var) in enumerate(entries):
         if n is None:
-            merged.append({'dict': var})
+            merged.append({'dict': var, 'ei': ei})
             continue
         hit = [m for m in merged if 'name' in m and m['name'].lower() == n.lower()]
         if hit:
             hit[0]['name'] = n
             hit[0]['dyn'] = var
+            hit[0]['ei'] = ei
         else:
-            merged.append({'name': n, 'kind': 'dq', 'text': None, 'dyn': var, 'static': False})
+            merged.append({'name': n, 'kind': 'dq', 'text': None, 'dyn': var, 'static': False, 'ei': ei})
     out = []
     for i, m in enumerate(merged):
         later_dicts = [B[x['dict']] for x in merged[i + 1:] if 'dict' in x]
         later_names = {x['name'] for x in merged[i + 1:] if 'name' in x}
+        if not dictionary_always_after_statics:
+            # 'later sources override earlier ones' goes by the order in which the sources are WRITTEN: a named entry written
+            # after a dictionary overrides the dictionary's key also when it targets a static attribute (whose place in
+            # the start tag comes first).  (dictionary_always_after_statics=True is the alternate model of the known
+            # mechanism: every dictionary counts as later than anything that sits at a static attribute's place.)
+            if 'dict' in m:
+                later_names |= {x['name'] for x in merged[:i] if 'name' in x and x.get('dyn') is not None and x.get('ei', -1) > m['ei']}
+            elif m.get('dyn') is not None and m.get('static'):
+                later_dicts = [B[x['dict']] for x in merged[i + 1:] if 'dict' in x and x['ei'] > m['ei']]
         if 'dict' in m:
             for k, v in B[m['dict']].items():
                 if k in later_names or any(k in d for d in later_dicts) or v is None:
@@ -291,6 +301,11 @@ def one_case(ctx, statics, entries, cfg, Bs, sample=False):
         ctx.case(key=(overlap, tuple((n.lower() if n else None) for n, v in entries), vals, cfg), nontrivial=nontrivial,
                  sample={'source': src, 'bindings': repr(B), 'rendered': o, 'model': repr(exp)} if sample else None)
         ok = rt is not None and matches(exp, rt[0])
+        if not ok and rt is not None and ndicts and matches(model(statics, entries, cfg, B, dictionary_always_after_statics=True), rt[0]):
+            ctx.violation('dictionary-wins-over-a-later-named-entry-for-a-static-attribute',
+                          'template %r (booleans: %s) bindings %r\n  rendered %r\n  model    %r' % (src, cfg, B, o, exp),
+                          {'kind': 'attrs', 'src': src, 'cfg': cfg, 'B': repr(B)})
+            continue
         if not ok:
             ctx.violation(classify(statics, entries, cfg, B, o, exp),
                           'template %r (booleans: %s) bindings %r\n  rendered %r\n  model    %r' % (src, cfg, B, o, exp),
@@ -403,12 +418,8 @@ def layer_random(ctx, n):
         for pos, (n, var) in enumerate(entries):
             if n is None:
                 for key in DICTS[var]:
-                    # a dictionary key that is also a static name targeted by a named entry: judged only when the named entry
-                    # comes first ('later sources override earlier ones' then names the dictionary; the other order is left out)
-                    if key.lower() in named_static and not any(e[0] and e[0].lower() == key.lower() for e in entries[:pos]):
-                        bad = True
-                    if key.lower() in named_static and any(e[0] and e[0].lower() == key.lower() for e in entries[pos:]):
-                        bad = True
+                    # (a dictionary key that is also a static name targeted by a named entry is judged in both orders: written
+                    # after the dictionary the named entry wins - the engine lets the dictionary win: known finding)
                     if any(key.lower() == x.lower() and key != x for x in all_names):
                         bad = True
         if bad:
